@@ -104,9 +104,10 @@ DropT == /\ R.e = "dropt"
 Close == /\ R.e = "close" /\ R.d \in DS
          /\ D' = IF R.side = "d" THEN [D EXCEPT ![R.d].dend = "closed"] ELSE [D EXCEPT ![R.d].lend = "closed"]
          /\ UNCHANGED L
-(* M5: bytes arrive in order, exactly once; no data -> Pending while the writer lives, EOF after *)
+(* M5: bytes arrive in order, exactly once; no data -> Pending while the writer lives, EOF after; a write succeeds
+   iff the other end still exists (BrokenPipe otherwise) *)
 Write == /\ R.e = "write" /\ R.d \in DS
-         /\ \/ /\ R.res = "ok" /\ R.n >= 1 /\ R.n <= Len(R.bytes)
+         /\ \/ /\ R.res = "ok" /\ R.n >= 1 /\ R.n <= Len(R.bytes) /\ PeerAlive(R.d, R.side) = TRUE   \* a write to a vanished peer fails
                /\ D' = IF R.side = "d" THEN [D EXCEPT ![R.d].ql = @ \o SubSeq(R.bytes, 1, R.n)]
                                         ELSE [D EXCEPT ![R.d].qd = @ \o SubSeq(R.bytes, 1, R.n)]
             \/ /\ R.res = "err" /\ (~PeerAlive(R.d, R.side)) = TRUE /\ UNCHANGED D
